@@ -473,14 +473,14 @@ class C11(TraceProp):
                 'Continuum.specOp_snoc_ins', 'Continuum.specOp_snoc_del']
     sections = ('versions', 'mgr')
     seg_fields = ('C11',)
-    weights = {'flush': 12, 'commit': 1, 'rollback': 0, 'del': 5, 'readd': 5, 'add': 5, 'query': 2}
+    weights = {'flush': 12, 'commit': 1, 'rollback': 0, 'del': 5, 'readd': 5, 'add': 5, 'query': 2, 'sp_begin': 2, 'sp_commit': 3}
     rule = ('random programs dominated by ONE long transaction with many flush / autoflush points over insert / '
             'update / delete / re-insert of few keys, both strategies, with and without the tracker plugin; version '
             'rows, operations dictionary (key, type, processed) and version-object cache keys compared with the model '
             'after every flush; C11.Holds (one row, last state, operation type = specOp automaton, accumulated flags) '
             'evaluated on the real tables at commit; thorough tier enumerates ALL sequences of <= 6 steps over '
             '{add, set, set-same, delete, flush} for one key; non-trivial = >= 2 flushes in one transaction')
-    needs_tags = ['multi_flush_tx', 'plugin:mod_tracker', 'key_reused_after_delete']
+    needs_tags = ['multi_flush_tx', 'plugin:mod_tracker', 'key_reused_after_delete', 'ev:spcommit']
 
     def pick_plugins(self, rng):
         return rng.choice([[], ['mod_tracker'], ['mod_tracker', 'null_delete'], ['tx_changes']])
@@ -611,7 +611,7 @@ class C10(TraceProp):
                 'Continuum.c10_twice_counterexample']
     sections = ('assoc', 'versions', 'mgr')
     seg_fields = ('C10',)
-    shapes = ['m2m']
+    shapes = ['m2m', 'm2m', 'm2m_self']
     weights = {'link': 16, 'unlink': 8, 'commit': 4, 'flush': 8, 'add': 7, 'del': 1, 'set': 1, 'rollback': 1, 'setrel': 0,
                'set_same': 0, 'set_null': 0, 'query': 0}
     steps_quick = (15, 25, 40)
